@@ -50,11 +50,11 @@ func sleepStep(s *x.Sim, d time.Duration) step {
 
 // prelude returns the number of servers and a deterministic opening for case i.
 func preludeServers(i int) int {
-	switch i % 7 {
-	case 2, 5:
+	switch i % 9 {
+	case 2, 5, 7:
 		return 3
 	case 6:
-		return 1 + i/7%3
+		return 1 + i/9%3
 	}
 	return 2
 }
@@ -67,7 +67,7 @@ func prelude(i int, s *x.Sim, g *x.Gen) []step {
 	}
 	fail := func(srv int, v bool) func() { return func() { s.W.Server(srv).SetStreamFail(v) } }
 	a := s.NewWatcher(x.TypeURLA, "r0", false)
-	switch i % 7 {
+	switch i % 9 {
 	case 0: // fallback at start-up, revert when the primary answers, new watch goes to the primary
 		b := s.NewWatcher(x.TypeURLB, "r1", false)
 		add("srv0 streams fail", fail(0, true))
@@ -128,6 +128,27 @@ func prelude(i int, s *x.Sim, g *x.Gen) []step {
 		add("srv1 answers", resp(1, x.TypeURLA, "valid"))
 	case 6:
 		add("watch r0", func() { a.Start(s.C) })
+	case 7: // three servers: fallen back past the still-failing secondary to the tertiary, then the primary recovers
+		add("srv0 streams fail", fail(0, true))
+		add("srv1 streams fail", fail(1, true))
+		add("watch r0", func() { a.Start(s.C) })
+		add("srv2 answers", resp(2, x.TypeURLA, "valid"))
+		add("srv0 recovers (srv1 keeps failing)", fail(0, false))
+		st = append(st, sleepStep(s, 150*time.Second))
+		add("srv0 answers", resp(0, x.TypeURLA, "valid"))
+		st = append(st, sleepStep(s, 150*time.Second))
+	case 8: // a resource known not to exist (watch expired) must not trigger fallback when the stream then fails
+		b := s.NewWatcher(x.TypeURLB, "r1", false)
+		add("watch r0", func() { a.Start(s.C) })
+		st = append(st, sleepStep(s, 16*time.Second))
+		add("srv0 breaks before any response (r0 is known not to exist)", func() { s.W.Server(0).Break() })
+		st = append(st, sleepStep(s, 3*time.Second))
+		add("watch B/r1", func() { b.Start(s.C) })
+		add("srv0 answers B", resp(0, x.TypeURLB, "valid"))
+		add("srv0 answers A without r0", resp(0, x.TypeURLA, "empty"))
+		add("srv0 streams fail", fail(0, true))
+		add("srv0 breaks after a response", func() { s.W.Server(0).Break() })
+		st = append(st, sleepStep(s, 9*time.Second))
 	}
 	return st
 }
@@ -246,7 +267,7 @@ func TestVerifC44(t *testing.T) {
 	}
 	r.Finish(vlib.Spec{
 		Level: "fault_enumeration",
-		Rule: "PRNG-generated scripts (25-55 steps after a deterministic prelude rotating over 7 fallback situations) against 1-3 scripted management servers: NewStream failures and recoveries per server, stream breaks before/after the first response, responses from any server incl. two servers answering in the same instant, watch/cancel of 1-4 names, virtual-time sleeps (backoff retries, 15 s expiry); " +
+		Rule: "PRNG-generated scripts (25-55 steps after a deterministic prelude rotating over 9 fallback situations) against 1-3 scripted management servers: NewStream failures and recoveries per server, stream breaks before/after the first response, responses from any server incl. two servers answering in the same instant, watch/cancel of 1-4 names, virtual-time sleeps (backoff retries, 15 s expiry); " +
 			"every transport creation/closure and every resource delivery is judged (F1-F4) at exact quiescence after each step, plus exact request names on the active server. " +
 			"non-trivial = >=1 stream failure before a response; distinct = (#servers, fallback once/twice, must-fallback rule exercised, nothing left to fall back to, revert, origin of deliveries checked, simultaneous answers)",
 		Assumptions: []string{
